@@ -3,7 +3,7 @@
 From VDrv Require Import Handshake HandshakeProofs.
 Open Scope N_scope.
 
-Definition demo_q : mreq := mkMReq 50 [1; 2] [(2, [4096; 8192])] 1 7 4096 true.
+Definition demo_q : mreq := mkMReq 50 [1; 2] [(2, [4096; 8192])] 1 7 4096 true [2] [2].
 Definition demo_hs : list hev :=
   let T := HTick in
   [HDeliverMMU demo_q; T; T; T; HDeliverGPU RDrain; HDeliverGPU RDrain; T; T; T; T;
